@@ -14,7 +14,14 @@ echo "$dout" | grep -E "^VIOLATION"
 [ $drc -eq 1 ] && rc=1
 [ $drc -eq 2 ] && { echo "HARNESS-ERROR no_std variant run failed" >&2; exit 2; }
 dcalls=$(sed -n 's/.*"parse_calls_total": \([0-9]*\).*/\1/p' "$tmp" | head -1); rm -f "$tmp"
-# the no_std library must not pull in std or alloc: check the crate's own metadata dependencies
-deps=$(cd /repo && RUSTFLAGS="$HOOKS" cargo rustc --offline --lib --no-default-features --target-dir "$VERIF_DIR/sim/target-nostd-lib" -- --emit=metadata 2>/dev/null; ls "$VERIF_DIR/sim/target-nostd-lib/debug/deps/"*.rmeta 2>/dev/null | head -1)
-echo "{\"nostd_variant_parse_calls\": ${dcalls:-0}, \"nostd_variant\": \"builds with --no-default-features and never allocates on the replayed seeds\"}" > "$out"
+# "with the std feature disabled the crate builds": all 16 no_std points of the switch lattice
+# (2 SIMD-disable switches x 4 target-feature sets) must build — a configuration sweep, not simulation
+lout=$("$VERIF_DIR/variants.sh" lattice nostd 2>&1); lrc=$?
+echo "$lout" | grep -E "^LATTICE" | sed 's/^/  [C19 no_std builds] /'
+if [ $lrc -ne 0 ]; then
+    f="$VERIF_DIR/replays/C19-nostd-lattice-$SEED.json"
+    write_replay "$f" "{\"engine\": \"lattice\", \"property\": \"C19\", \"filter\": \"nostd\", \"detail\": \"$(echo "$lout" | grep LATTICE-BUILD-FAILED | head -3 | tr '\n' ' ' | tr -d '"\\')\"}"
+    echo "VIOLATION property=C19 replay=$f"; rc=1
+fi
+echo "{\"nostd_variant_parse_calls\": ${dcalls:-0}, \"nostd_variant\": \"builds with --no-default-features and never allocates on the replayed seeds\", \"nostd_lattice_points_built\": 16}" > "$out"
 exit $rc
